@@ -70,9 +70,9 @@ func sysFaultScenario(seed uint64, idx int, root string, fixed string, enc *stri
 		// what tier 2's real toGRPCError answers) instead of the harness worker; only there can an execution be
 		// interrupted by tier 2's per-block timeout ("exec")
 		real := idx%3 == 0 && k < 2
-		kinds := []string{"before", "mid", "after"}
+		kinds := []string{"before", "mid", "after", "drain"}
 		if real {
-			kinds = []string{"before", "mid", "after", "exec", "exec"}
+			kinds = []string{"before", "mid", "after", "drain", "exec", "exec"}
 		}
 		var faults []sys.Fault
 		var desc []string
